@@ -38,7 +38,7 @@ package corebgp
 //@   at call incomingConnection#0 set target = arg0
 //@   at call incomingConnection#0 assert [to_the_configured_peer] splitOK(rstr) && has(s.peers, splitHost(rstr)) && arg0 == s.peers[splitHost(rstr)] && arg1 == conn && locked(s.mu)
 //@   at call incomingConnection#0 assert [destination_matches] addrIsValid(arg0.options.localAddress) ==> splitOK(lstr) && parseAddrOK(splitHost(lstr)) && parseAddr(splitHost(lstr)) == arg0.options.localAddress
-//@   modifies locked(s.mu), connClosed(conn)
+//@   modifies locked(s.mu), lockCount(s.mu), connClosed(conn)
 //@   ensures [lock_released] !locked(s.mu)
 //@   ensures [closed_unless_handed] !handed ==> connClosed(conn)
 //@   ensures [handed_iff_configured] handed == (splitOK(rstr) && has(s.peers, splitHost(rstr)) && (addrIsValid(s.peers[splitHost(rstr)].options.localAddress) ==> splitOK(lstr) && parseAddrOK(splitHost(lstr)) && parseAddr(splitHost(lstr)) == s.peers[splitHost(rstr)].options.localAddress))
@@ -61,9 +61,8 @@ package corebgp
 //@ func Server.AddPeer (s, config, plugin, opts) returns (err)
 //@   at call start#0 assert [started_before_the_registry_lock_is_released] locked(s.mu)
 //@   local ErrPeerAlreadyExists #1 error
-//@   ghostvar nLock int = 0
-//@   at call Lock set nLock = nLock + 1
-//@   ensures [one_critical_section] nLock <= 1 && (err == nil ==> nLock == 1)
+// (critical sections are counted by the mutex itself, so a lock taken inside a callee counts)
+//@   ensures [one_critical_section] lockCount(s.mu) <= old(lockCount(s.mu)) + 1 && (err == nil ==> lockCount(s.mu) == old(lockCount(s.mu)) + 1)
 //@   requires serverObj(s) && !locked(s.mu) && peersOK(s)
 //@   requires [options_usable] forall k :: 0 <= k && k < len(opts) ==> isType(opts[k], *funcPeerOption) && asType(opts[k], *funcPeerOption) != nil && asType(opts[k], *funcPeerOption).fn != nil
 //@   let key = addrString(config.RemoteAddress)
@@ -71,7 +70,7 @@ package corebgp
 //@   ghostvar cfgErr bool = false
 //@   at call validate#0 after set optErr = result != nil
 //@   at call validate#1 after set cfgErr = result != nil
-//@   modifies locked(s.mu), mapOf(s.peers)
+//@   modifies locked(s.mu), lockCount(s.mu), mapOf(s.peers)
 //@   ensures [lock_released] !locked(s.mu)
 //@   ensures [invalid_rejected] optErr || cfgErr ==> err != nil
 //@   ensures [rejected_without_side_effect] err != nil ==> registryUnchanged(s)
@@ -83,12 +82,10 @@ package corebgp
 //@ func Server.DeletePeer (s, ip) returns (err)
 //@   at call stop#0 assert [stopped_before_the_registry_lock_is_released] locked(s.mu)
 //@   local ErrPeerNotExist #0 error
-//@   ghostvar nLock int = 0
-//@   at call Lock set nLock = nLock + 1
-//@   ensures [one_critical_section] nLock == 1
+//@   ensures [one_critical_section] lockCount(s.mu) == old(lockCount(s.mu)) + 1
 //@   requires serverObj(s) && !locked(s.mu) && peersOK(s)
 //@   let key = addrString(ip)
-//@   modifies locked(s.mu), mapOf(s.peers), peerRunning, chanClosed, onceDone
+//@   modifies locked(s.mu), lockCount(s.mu), mapOf(s.peers), peerRunning, chanClosed, onceDone
 //@   ensures [lock_released] !locked(s.mu)
 //@   ensures [missing] !old(has(s.peers, key)) ==> err == ErrPeerNotExist && registryUnchanged(s)
 //@   ensures [deleted] old(has(s.peers, key)) ==> err == nil && !has(s.peers, key)
@@ -97,22 +94,18 @@ package corebgp
 
 //@ func Server.GetPeer (s, ip) returns (c, err)
 //@   local ErrPeerNotExist #0 error
-//@   ghostvar nLock int = 0
-//@   at call Lock set nLock = nLock + 1
-//@   ensures [one_critical_section] nLock == 1
+//@   ensures [one_critical_section] lockCount(s.mu) == old(lockCount(s.mu)) + 1
 //@   requires serverObj(s) && !locked(s.mu) && peersOK(s)
-//@   modifies locked(s.mu)
+//@   modifies locked(s.mu), lockCount(s.mu)
 //@   ensures [lock_released] !locked(s.mu)
 //@   ensures [missing] !has(s.peers, addrString(ip)) ==> err == ErrPeerNotExist
 //@   ensures [present] has(s.peers, addrString(ip)) ==> err == nil && c == s.peers[addrString(ip)].config
 
 //@ func Server.ListPeers (s) returns (r)
 //@   local configs #0 []PeerConfig
-//@   ghostvar nLock int = 0
-//@   at call Lock set nLock = nLock + 1
-//@   ensures [one_critical_section] nLock == 1
+//@   ensures [one_critical_section] lockCount(s.mu) == old(lockCount(s.mu)) + 1
 //@   requires serverObj(s) && !locked(s.mu) && peersOK(s)
-//@   modifies locked(s.mu)
+//@   modifies locked(s.mu), lockCount(s.mu)
 //@   loop#0 invariant [prefix] locked(s.mu) && len(configs) == rangepos && 0 <= rangepos && rangepos <= rangelen && fresh(configs.arr) && (forall k :: 0 <= k && k < rangepos ==> configs[k] == s.peers[rangekey(k)].config)
 //@   ensures [lock_released] !locked(s.mu)
 //@   ensures [one_per_peer] len(r) == mapLen(s.peers)
@@ -120,7 +113,7 @@ package corebgp
 
 //@ func Server.Close (s)
 //@   requires serverObj(s) && !locked(s.mu) && (chanClosed(s.closeCh) == onceDone(s.closeOnce))
-//@   modifies locked(s.mu), chanClosed(s.closeCh), onceDone(s.closeOnce)
+//@   modifies locked(s.mu), lockCount(s.mu), chanClosed(s.closeCh), onceDone(s.closeOnce)
 //@   ensures [lock_released] !locked(s.mu)
 //@   ensures [close_requested] chanClosed(s.closeCh)
 
@@ -144,8 +137,12 @@ package corebgp
 //@   local lisWG #0 *sync.WaitGroup
 //@   local s #0 *Server
 //@   requires lis != nil && serverObj(s) && !locked(s.mu) && peersOK(s) && lisWG != nil && lisErrCh != nil && closingListeners != nil
-//@   loop#0 invariant [idle] !locked(s.mu) && peersOK(s)
-//@   modifies locked(s.mu), connClosed, wgCount(lisWG)
+//@   ghostvar pending bool = false
+//@   at call Accept#0 after set pending = result1 == nil
+//@   at call handleInboundConn#0 set pending = false
+//@   loop#0 invariant [idle] !locked(s.mu) && peersOK(s) && !pending
+//@   at return assert [every_accepted_connection_is_dispatched] !pending
+//@   modifies locked(s.mu), lockCount(s.mu), connClosed, wgCount(lisWG)
 
 //@ func Server.Serve (s, listeners) returns (err)
 //@   local ErrServerClosed #0 error
@@ -164,7 +161,7 @@ package corebgp
 //@   at call start#0 assert [starts_registered_peer_under_lock] locked(s.mu) && s.serving && has(s.peers, rangekey(rangepos - 1)) && arg0 == s.peers[rangekey(rangepos - 1)]
 //@   loop#0 invariant [starting] locked(s.mu) && s.serving && !refused && 0 <= rangepos && rangepos <= rangelen && !chanClosed(s.doneServingCh) && (forall k :: rangepos <= k && k < rangelen ==> peerStartable(s.peers[rangekey(k)])) && stoppablePeers(s)
 //@   loop#1 invariant [listening] !locked(s.mu) && !refused && !chanClosed(s.doneServingCh) && -1 <= rangeindex && rangeindex + 1 <= len(listeners) && stoppablePeers(s)
-//@   modifies locked(s.mu), s.serving, chanClosed, onceDone, peerRunning, fsmRunning, wgCount, peer.fsms, peer.fsmState
+//@   modifies locked(s.mu), lockCount(s.mu), s.serving, chanClosed, onceDone, peerRunning, fsmRunning, wgCount, peer.fsms, peer.fsmState
 //@   ensures [closed_server_refuses] old(chanClosed(s.doneServingCh) || chanClosed(s.closeCh)) ==> refused && err == ErrServerClosed && s.serving == old(s.serving)
 //@   ensures [always_an_error] err != nil
 //@   ensures [lock_released] !locked(s.mu)
